@@ -28,6 +28,9 @@ import signal
 import sys
 import time
 import traceback
+import warnings
+
+warnings.simplefilter("ignore", SyntaxWarning)
 
 REPO = os.path.realpath(os.environ.get("VERIF_REPO", "/repo"))
 SRC_DIRS = (
@@ -40,7 +43,7 @@ SHRINK_MAX_ATTEMPTS = 40
 
 
 class _Timeout(BaseException):
-    """Private: raised by the SIGALRM handler."""
+    """Private: raised by the SIGVTALRM handler."""
 
 
 def _on_alarm(signum, frame):
@@ -248,8 +251,11 @@ def run_program(pid, path, src, do_compile=True, timeout_s=20, full_tb=False):
     """Import module `path` (text `src`), check and compile `main`; classify.  Current process."""
     rec = _blank_record(pid)
     t0 = time.time()
-    old = signal.signal(signal.SIGALRM, _on_alarm)
-    signal.alarm(max(1, int(timeout_s)))
+    # The budget is *user CPU* seconds of this process (ITIMER_VIRTUAL): the sandbox is heavily
+    # loaded and page faults after fork() cost seconds of system time, which must not be mistaken
+    # for a hang of the compiler.  The parent additionally enforces a generous wall-clock limit.
+    old = signal.signal(signal.SIGVTALRM, _on_alarm)
+    signal.setitimer(signal.ITIMER_VIRTUAL, max(1.0, float(timeout_s)))
     stage = "import"
     try:
         try:
@@ -269,7 +275,7 @@ def run_program(pid, path, src, do_compile=True, timeout_s=20, full_tb=False):
             if do_compile:
                 stage = "compile"
                 main.compile_function()
-            signal.alarm(0)
+            signal.setitimer(signal.ITIMER_VIRTUAL, 0)
             rec["outcome"] = "accepted"
             rec["stage"] = stage
             return rec
@@ -282,88 +288,184 @@ def run_program(pid, path, src, do_compile=True, timeout_s=20, full_tb=False):
             except _Timeout as exc2:
                 return _classify_exception(rec, exc2, "render", path, src, full_tb)
     finally:
-        signal.alarm(0)
-        signal.signal(signal.SIGALRM, old)
+        signal.setitimer(signal.ITIMER_VIRTUAL, 0)
+        signal.signal(signal.SIGVTALRM, old)
         rec["secs"] = round(time.time() - t0, 3)
 
 
 # ----------------------------------------------------------------------------------------------
-# Process isolation: one forked child per job
+# State snapshot / restore (guppylang keeps global state: DEF_STORE, ENGINE, experimental flag)
 # ----------------------------------------------------------------------------------------------
 
-def _child_main(fn, arg, wfd):
+def snapshot_state():
+    import guppylang_internals.experimental as exp
+    from guppylang_internals.engine import DEF_STORE, ENGINE
+
+    return {
+        "raw_defs": dict(DEF_STORE.raw_defs),
+        "impls": {k: dict(v) for k, v in DEF_STORE.impls.items()},
+        "impl_parents": dict(DEF_STORE.impl_parents),
+        "frames": dict(DEF_STORE.frames),
+        "wasm": dict(DEF_STORE.wasm_functions),
+        "sources": dict(DEF_STORE.sources.sources),
+        "ext": list(ENGINE.additional_extensions),
+        "exp": exp.EXPERIMENTAL_FEATURES_ENABLED,
+        "modules": set(sys.modules),
+        "reclimit": sys.getrecursionlimit(),
+    }
+
+
+def restore_state(snap):
+    """Undo everything a program run may have left behind in guppylang's global state."""
+    import guppylang_internals.experimental as exp
+    from guppylang_internals.engine import DEF_STORE, ENGINE
+
+    DEF_STORE.raw_defs.clear()
+    DEF_STORE.raw_defs.update(snap["raw_defs"])
+    DEF_STORE.impls.clear()
+    for k, v in snap["impls"].items():
+        DEF_STORE.impls[k] = dict(v)
+    DEF_STORE.impl_parents.clear()
+    DEF_STORE.impl_parents.update(snap["impl_parents"])
+    DEF_STORE.frames.clear()
+    DEF_STORE.frames.update(snap["frames"])
+    DEF_STORE.wasm_functions.clear()
+    DEF_STORE.wasm_functions.update(snap["wasm"])
+    DEF_STORE.sources.sources.clear()
+    DEF_STORE.sources.sources.update(snap["sources"])
+    ENGINE.reset()
+    ENGINE.additional_extensions[:] = snap["ext"]
+    exp.EXPERIMENTAL_FEATURES_ENABLED = snap["exp"]
+    for m in sorted(set(sys.modules) - snap["modules"]):
+        if m.startswith("m_"):
+            del sys.modules[m]
+    sys.setrecursionlimit(snap["reclimit"])
+    sys.excepthook = sys.__excepthook__
+    import linecache
+
+    linecache.clearcache()
+
+
+# ----------------------------------------------------------------------------------------------
+# Process pool.  Page faults after fork() are very expensive on the sandbox (a forked child needs
+# seconds to touch its heap), so workers are persistent: each worker is forked once from the warmed
+# parent, handles a fixed slice (index mod workers) and restores the global state after every
+# program.  FAIL records are afterwards re-confirmed in a *fresh* process (see run_request).
+# ----------------------------------------------------------------------------------------------
+
+_WARM_DIR = [None]
+
+
+def _worker_main(fn, items, wfd):
+    """items: list of (idx, arg).  Writes one JSON line per event."""
     try:
-        try:
-            res = fn(arg)
-            data = json.dumps(res).encode()
-        except BaseException as e:  # noqa: BLE001
-            data = json.dumps({"__child_error__": f"{type(e).__name__}: {_exc_msg(e)}",
-                               "traceback": traceback.format_exc()[-3000:]}).encode()
-        with os.fdopen(wfd, "wb") as f:
-            f.write(data)
+        if _WARM_DIR[0]:
+            warm_up(_WARM_DIR[0], tag=f"w{os.getpid()}")  # fault in the heap before the clock matters
+        snap = snapshot_state()
+        with os.fdopen(wfd, "w") as out:
+            for idx, arg in items:
+                out.write(json.dumps({"start": idx}) + "\n")
+                out.flush()
+                try:
+                    res = fn(arg)
+                except BaseException as e:  # noqa: BLE001
+                    res = {"__child_error__": f"{type(e).__name__}: {_exc_msg(e)}",
+                           "traceback": traceback.format_exc()[-3000:]}
+                try:
+                    restore_state(snap)
+                except BaseException as e:  # noqa: BLE001
+                    res = {"__child_error__": f"restore_state: {type(e).__name__}: {_exc_msg(e)}"}
+                out.write(json.dumps({"done": idx, "res": res}) + "\n")
+                out.flush()
     finally:
         os._exit(0)
 
 
-def fork_map(fn, args, workers=DEFAULT_WORKERS, hard_timeout_s=60.0):
-    """Apply fn to each arg in a freshly forked child each; returns results in order.
-    A child that dies without output or exceeds hard_timeout_s yields {"__child_error__": ...}."""
+def fork_map(fn, args, workers=DEFAULT_WORKERS, hard_timeout_s=60.0, fresh=False):
+    """Apply fn to each arg in forked workers; results in order.
+    fresh=False: `workers` persistent workers, worker w handles indices w, w+workers, ...
+    fresh=True : every arg gets its own freshly forked process (at most `workers` at a time).
+    A worker that dies or exceeds hard_timeout_s on one item yields {"__child_error__": ...} for
+    that item; the rest of its slice is handed to a new worker."""
     n = len(args)
     results = [None] * n
+    if n == 0:
+        return results
+    if fresh:
+        queues = [[(i, args[i])] for i in range(n)]
+    else:
+        queues = [[(i, args[i]) for i in range(w, n, workers)] for w in range(workers)]
+        queues = [q for q in queues if q]
+    pending = list(reversed(queues))
     sel = selectors.DefaultSelector()
-    running = {}  # rfd -> [idx, pid, chunks, t0]
-    nxt = 0
+    running = {}  # rfd -> dict(pid, items, buf, cur, t0)
     sys.stdout.flush()
     sys.stderr.flush()
-    while nxt < n or running:
-        while nxt < n and len(running) < workers:
-            rfd, wfd = os.pipe()
-            pid = os.fork()
-            if pid == 0:
-                os.close(rfd)
-                for other in running:
-                    try:
-                        os.close(other)
-                    except OSError:
-                        pass
-                _child_main(fn, args[nxt], wfd)
-            os.close(wfd)
-            running[rfd] = [nxt, pid, [], time.time()]
-            sel.register(rfd, selectors.EVENT_READ)
-            nxt += 1
-        events = sel.select(timeout=1.0)
-        done = []
-        for key, _ in events:
-            rfd = key.fd
-            chunk = os.read(rfd, 1 << 16)
-            if chunk:
-                running[rfd][2].append(chunk)
-            else:
-                done.append((rfd, None))
-        now = time.time()
-        for rfd, st in running.items():
-            if now - st[3] > hard_timeout_s and all(rfd != d[0] for d in done):
+
+    def spawn(items):
+        rfd, wfd = os.pipe()
+        pid = os.fork()
+        if pid == 0:
+            os.close(rfd)
+            for other in list(running):
                 try:
-                    os.kill(st[1], signal.SIGKILL)
+                    os.close(other)
                 except OSError:
                     pass
-                done.append((rfd, "hard timeout"))
-        for rfd, why in done:
-            idx, pid, chunks, _t0 = running.pop(rfd)
-            sel.unregister(rfd)
-            os.close(rfd)
+            _worker_main(fn, items, wfd)
+        os.close(wfd)
+        running[rfd] = {"pid": pid, "items": list(items), "buf": b"", "cur": None, "t0": time.time()}
+        sel.register(rfd, selectors.EVENT_READ)
+
+    def finish(rfd, why):
+        st = running.pop(rfd)
+        sel.unregister(rfd)
+        os.close(rfd)
+        if why is not None:
             try:
-                _, status = os.waitpid(pid, 0)
+                os.kill(st["pid"], signal.SIGKILL)
             except OSError:
-                status = -1
-            data = b"".join(chunks)
-            if why is None and data:
+                pass
+        try:
+            _, status = os.waitpid(st["pid"], 0)
+        except OSError:
+            status = -1
+        rest = [(i, a) for (i, a) in st["items"] if results[i] is None]
+        if rest:
+            # the item that was being processed (or the first one) is the casualty
+            cur = st["cur"] if st["cur"] is not None else rest[0][0]
+            results[cur] = {"__child_error__": why or f"worker died (wait status {status})"}
+            rest = [(i, a) for (i, a) in rest if i != cur]
+            if rest:
+                pending.append(rest)
+
+    while pending or running:
+        while pending and len(running) < workers:
+            spawn(pending.pop())
+        for key, _ in sel.select(timeout=1.0):
+            rfd = key.fd
+            st = running[rfd]
+            chunk = os.read(rfd, 1 << 16)
+            if not chunk:
+                finish(rfd, None)
+                continue
+            st["buf"] += chunk
+            while b"\n" in st["buf"]:
+                line, st["buf"] = st["buf"].split(b"\n", 1)
                 try:
-                    results[idx] = json.loads(data)
-                    continue
+                    ev = json.loads(line)
                 except ValueError:
-                    why = "unparseable child output"
-            results[idx] = {"__child_error__": why or f"child died (wait status {status})"}
+                    continue
+                if "start" in ev:
+                    st["cur"] = ev["start"]
+                    st["t0"] = time.time()
+                elif "done" in ev:
+                    results[ev["done"]] = ev["res"]
+                    st["cur"] = None
+                    st["t0"] = time.time()
+        now = time.time()
+        for rfd in [r for r, st in running.items() if now - st["t0"] > hard_timeout_s]:
+            finish(rfd, "hard timeout")
     sel.close()
     return results
 
@@ -396,14 +498,10 @@ def _fix_child_error(res, pid):
     return res
 
 
-def run_isolated_one(job, hard_timeout_s):
-    return _fix_child_error(fork_map(_job_run, [job], 1, hard_timeout_s)[0], job["id"])
-
-
 # ---- shrinking -------------------------------------------------------------------------------
 
 def split_main(src):
-    """(prefix text up to and including the marker / everything before main, main FunctionDef)."""
+    """(text before main, main FunctionDef, text after main) of a module text."""
     tree = ast.parse(src)
     main = None
     for node in tree.body:
@@ -426,7 +524,7 @@ def join_main(prefix, main, suffix):
 
 
 def _stmt_lists(node):
-    """All statement lists (python lists, mutable) nested in node, pre-order."""
+    """All statement lists (the mutable python lists) nested in node, pre-order."""
     out = []
     for field in ("body", "orelse", "finalbody"):
         lst = getattr(node, field, None)
@@ -464,60 +562,97 @@ def _delete_nth(main, n):
     return None
 
 
-def _sig(rec):
+def _drop_helpers(prefix_src, main_text_fn):
+    """Candidates of the module prefix with one top-level statement (not an import) removed."""
+    try:
+        tree = ast.parse(prefix_src)
+    except SyntaxError:
+        return
+    lines = prefix_src.split("\n")
+    for node in reversed(tree.body):
+        if isinstance(node, (ast.Import, ast.ImportFrom)):
+            continue
+        start = min([d.lineno for d in getattr(node, "decorator_list", [])] + [node.lineno])
+        yield "\n".join(lines[: start - 1] + lines[node.end_lineno:])
+
+
+def sig(rec):
+    """Failure class of a record: (stage, exc_class, innermost guppylang frame file:function, kind)."""
     fr = rec.get("frame") or ""
     parts = fr.rsplit(":", 2)
     func = (parts[0] + ":" + parts[2]) if len(parts) == 3 else fr
     why = rec.get("fail_reason") or ""
-    # for span failures keep the kind of violation stable
-    kind = re.sub(r"[0-9]+", "N", why)[:40] if rec.get("stage") == "span" else ""
-    return (rec.get("stage"), rec.get("exc_class"), func, kind)
+    kind = ""
+    if rec.get("stage") == "span":
+        kind = re.sub(r"[0-9]+", "N", re.sub(r"'[^']*'", "'..'", why))[:60]
+    return [rec.get("stage"), rec.get("exc_class"), func, kind]
 
 
 def shrink_job(job):
-    """job = run job + {"rec": failing record}.  Returns shrunk module text (or None)."""
+    """job = run job + {"rec": failing record}.  Runs in a worker; every attempt is followed by a
+    state restore.  Returns the shrunk module text, or None if nothing could be removed."""
     src = job["src"]
-    target = _sig(job["rec"])
-    hard = job["timeout_s"] + 10
+    target = sig(job["rec"])
     try:
         prefix, main, suffix = split_main(src)
     except SyntaxError:
         return None
     if main is None:
         return None
-    attempts = 0
+    snap = snapshot_state()
+    attempts = [0]
+
+    def still_fails(text):
+        try:
+            compile(text, "<shrink>", "exec")
+        except (SyntaxError, ValueError):
+            return None
+        attempts[0] += 1
+        path = job["path"][:-3] + f"_s{attempts[0]}.py"
+        _write(path, text)
+        try:
+            r = run_program(job["id"], path, text, job["compile"], job["timeout_s"])
+        finally:
+            restore_state(snap)
+            try:
+                os.unlink(path)
+            except OSError:
+                pass
+        return r.get("outcome") == "FAIL" and sig(r) == target
+
     best = None
     changed = True
-    while changed and attempts < SHRINK_MAX_ATTEMPTS:
+    while changed and attempts[0] < SHRINK_MAX_ATTEMPTS:
         changed = False
         i = 0
-        while i < _count_stmts(main) and attempts < SHRINK_MAX_ATTEMPTS:
+        while i < _count_stmts(main) and attempts[0] < SHRINK_MAX_ATTEMPTS:
             cand = _delete_nth(main, i)
             if cand is None:
                 i += 1
                 continue
             text = join_main(prefix, cand, suffix)
-            try:
-                compile(text, "<shrink>", "exec")
-            except (SyntaxError, ValueError):
-                i += 1
-                continue
-            attempts += 1
-            sub = dict(job)
-            sub.pop("rec", None)
-            sub["src"] = text
-            sub["path"] = job["path"][:-3] + f"_s{attempts}.py"
-            r = run_isolated_one(sub, hard)
-            try:
-                os.unlink(sub["path"])
-            except OSError:
-                pass
-            if r.get("outcome") == "FAIL" and _sig(r) == target:
+            if still_fails(text):
                 main = cand
                 best = text
                 changed = True
             else:
                 i += 1
+    # optional: drop helper definitions that are not needed for the failure (cheap, bounded)
+    extra = 0
+    progress = True
+    while progress and extra < 12:
+        progress = False
+        for cand_prefix in _drop_helpers(prefix, None) or ():
+            extra += 1
+            text = join_main(cand_prefix.rstrip("\n") + "\n", main, suffix)
+            attempts[0] = min(attempts[0], SHRINK_MAX_ATTEMPTS + extra)  # helper drops are extra
+            if still_fails(text):
+                prefix = cand_prefix.rstrip("\n") + "\n"
+                best = text
+                progress = True
+                break
+            if extra >= 12:
+                break
     return best
 
 
@@ -543,11 +678,25 @@ def main(q: qubit @ owned, xs: array[int, 2] @ owned) -> int:
 '''
 
 
-def warm_up(scratch_dir):
-    """Import the lazily-loaded parts of guppylang once so forked children do not repeat it."""
-    path = os.path.join(scratch_dir, "m__warm.py")
+def warm_up(scratch_dir, tag=""):
+    """Run one fixed accepted program and one fixed rejected program in the parent so that the
+    lazily imported parts of guppylang (checker, compiler, renderer) are loaded before forking."""
+    snap = snapshot_state()
+    path = os.path.join(scratch_dir, f"m__warm{tag}.py")
     _write(path, _WARM_SRC)
-    rec = run_program("_warm", path, _WARM_SRC, True, 120)
+    rec = run_program("_warm", path, _WARM_SRC, True, 300)
+    restore_state(snap)
+    bad = _WARM_SRC.replace("s += 1\n", "s += undefined_name\n")
+    _write(path, bad)
+    rec2 = run_program("_warm", path, bad, True, 300)
+    restore_state(snap)
+    if tag:
+        try:
+            os.unlink(path)
+        except OSError:
+            pass
+    if rec["outcome"] != "accepted" or rec2["outcome"] != "rejected":
+        sys.stderr.write("impl_search: unexpected warm-up outcome: %r / %r\n" % (rec, rec2))
     return rec
 
 
@@ -556,37 +705,81 @@ def run_request(req):
     do_compile = bool(req.get("compile", True))
     timeout_s = int(req.get("timeout_s", 20))
     workers = int(req.get("workers", DEFAULT_WORKERS))
-    warm = warm_up(d)
-    if warm["outcome"] != "accepted":
-        sys.stderr.write("impl_search: warm-up program not accepted: %r\n" % (warm,))
+    confirm = bool(req.get("confirm", True))
+    warm_up(d)
+    _WARM_DIR[0] = d
+    wall = timeout_s * 10 + 60  # wall-clock watchdog of the parent (per program)
     jobs = []
     for p in req["programs"]:
         pid = str(p["id"])
         fname = "m_" + re.sub(r"\W", "_", pid) + ".py"
         jobs.append({"id": pid, "path": os.path.join(d, fname), "src": p["src"],
                      "compile": do_compile, "timeout_s": timeout_s})
-    raw = fork_map(_job_run, jobs, workers, timeout_s + 10)
+    raw = fork_map(_job_run, jobs, workers, wall)
     recs = [_fix_child_error(r, j["id"]) for r, j in zip(raw, jobs)]
-    if req.get("shrink"):
-        idxs = [i for i, r in enumerate(recs) if r["outcome"] == "FAIL"]
-        sjobs = [dict(jobs[i], rec=recs[i]) for i in idxs]
-        # every shrink attempt itself runs in a fresh grandchild
-        shr = fork_map(shrink_job, sjobs, workers, (timeout_s + 12) * (SHRINK_MAX_ATTEMPTS + 1))
-        for i, s in zip(idxs, shr):
+    fails = [i for i, r in enumerate(recs) if r["outcome"] == "FAIL"]
+    if req.get("shrink") and fails:
+        sjobs = [dict(jobs[i], rec=recs[i]) for i in fails]
+        shr = fork_map(shrink_job, sjobs, workers, wall * 4)
+        for i, s in zip(fails, shr):
             recs[i]["shrunk_src"] = s if isinstance(s, str) else None
+    if confirm and fails:
+        # Re-run failing programs (and their shrunk forms) each in a *fresh* process forked from the
+        # warmed parent: the failure must not depend on what else ran in the same worker.
+        # Identical texts are confirmed once.
+        texts = {}
+        for i in fails:
+            for key in ("src", "shrunk_src"):
+                t = jobs[i]["src"] if key == "src" else recs[i]["shrunk_src"]
+                if t is not None and t not in texts:
+                    texts[t] = len(texts)
+        order = sorted(texts, key=texts.get)
+        cjobs = [{"id": f"confirm{k}", "path": os.path.join(d, f"m_confirm{k}.py"), "src": t,
+                  "compile": do_compile, "timeout_s": timeout_s} for k, t in enumerate(order)]
+        cres = fork_map(_job_run, cjobs, workers, wall, fresh=True)
+        cres = [_fix_child_error(r, j["id"]) for r, j in zip(cres, cjobs)]
+        by_text = {t: r for t, r in zip(order, cres)}
+        for i in fails:
+            rec = recs[i]
+            want = sig(rec)
+            fresh_rec = by_text[jobs[i]["src"]]
+            rec["confirmed"] = fresh_rec["outcome"] == "FAIL" and sig(fresh_rec) == want
+            if not rec["confirmed"]:
+                # The fresh process is what --replay reproduces, so it is authoritative; keep the
+                # worker's view for diagnosis of the harness.
+                worker_view = {k: rec[k] for k in ("outcome", "stage", "exc_class", "frame", "fail_reason")}
+                shrunk = rec.get("shrunk_src")
+                rec.clear()
+                rec.update(fresh_rec)
+                rec["id"] = jobs[i]["id"]
+                rec["confirmed"] = False
+                rec["worker_view"] = worker_view
+                rec["shrunk_src"] = shrunk if rec["outcome"] == "FAIL" else None
+                if rec["outcome"] != "FAIL":
+                    continue
+                want = sig(rec)
+            if rec["shrunk_src"] is not None:
+                sr = by_text[rec["shrunk_src"]]
+                if not (sr["outcome"] == "FAIL" and sig(sr) == want):
+                    rec["shrunk_src"] = None
+    for r in recs:
+        if r["outcome"] == "FAIL":
+            r["sig"] = sig(r)
     return recs
 
 
-def replay(path, do_compile=True, timeout_s=60):
+def replay(path, do_compile=True, timeout_s=120):
     with open(path) as f:
         src = f.read()
     path = os.path.abspath(path)
     rec = run_program(os.path.basename(path)[:-3], path, src, do_compile, timeout_s, full_tb=True)
     tb = rec.pop("traceback", None)
     rendered = rec.pop("rendered", None)
+    if rec["outcome"] == "FAIL":
+        rec["sig"] = sig(rec)
     print(json.dumps(rec, indent=1))
     if rendered:
-        print("---- rendered diagnostic ----")
+        print("---- rendered diagnostic (first 600 chars) ----")
         print(rendered)
     if tb:
         print("---- traceback ----")
